@@ -259,6 +259,9 @@ fn dquant_suite() -> SuiteReport {
                 // mixed signs walk back from them
                 for chain in 0..64u32 {
                     let dqs: [i8; 3] = [[-2i8, -1, 1, 2][(chain % 4) as usize], [-2i8, -1, 1, 2][(chain / 4 % 4) as usize], [-2i8, -1, 1, 2][(chain / 16) as usize]];
+                    // every other chain: the macroblocks that carry DQUANT have no coefficient of
+                    // their own (no coded block) - the update still holds for the ones after them
+                    let empty_q = chain % 2 == 1;
                     for inter in [false, true] {
                         let size = grid_size(mode);
                         let mut st = H263State::new(options_scal(mode, pq % 2 == 1));
@@ -302,7 +305,9 @@ fn dquant_suite() -> SuiteReport {
                             for b in 0..6 {
                                 mb.blocks[b].dc = 255;
                                 let lv = if (n + b) % 2 == 0 { 10 } else { -10 };
-                                mb.blocks[b].events = vec![Event { run: if inter { 0 } else { 1 }, level: lv, force_escape: false, wide: false }];
+                                if !(with_q && empty_q) {
+                                    mb.blocks[b].events = vec![Event { run: if inter { 0 } else { 1 }, level: lv, force_escape: false, wide: false }];
+                                }
                             }
                             mbs.push(mb);
                         }
@@ -407,6 +412,67 @@ fn escape_pairs_suite() -> SuiteReport {
     })
 }
 
+/// Blocks in which every coefficient is coded: 63 events in an intra block, 64 in an inter block,
+/// all with run 0 (plus the variants ending one and two positions early), levels of both signs in
+/// short and escape form.
+fn full_blocks_suite() -> SuiteReport {
+    simple_suite("every_coefficient_coded", true, |acc| {
+        for (mode, version, mname) in MODES {
+            for q in [1u8, 5, 31] {
+                for intra in [false, true] {
+                    let first = if intra { 1usize } else { 0 };
+                    let size = grid_size(mode);
+                    let mut st = H263State::new(options_scal(mode, q == 5));
+                    let reference = match grey_reference(&mut st, mode, version) {
+                        Ok(r) => r,
+                        Err(e) => {
+                            acc.fail(json!({"kind":"params","suite":"full_blocks"}), e);
+                            return;
+                        }
+                    };
+                    let mut hdr = match mode {
+                        Mode::Sorenson => Header::sorenson(version, if intra { PicType::I } else { PicType::P }, size, q),
+                        Mode::Standard => Header::standard(if intra { PicType::I } else { PicType::P }, size, q),
+                    };
+                    hdr.tr = 2;
+                    let (mbw, mbh) = hdr.mb_dims().unwrap();
+                    let mut mbs = Vec::new();
+                    for n in 0..mbw * mbh {
+                        let mut mb = Mb::new(if intra { MbKind::Intra } else { MbKind::Inter });
+                        for b in 0..6 {
+                            mb.blocks[b].dc = 255;
+                            // the last coded position: 63, 62 or 61
+                            let last_pos = 63 - (n + b) % 3;
+                            let mut ev = Vec::new();
+                            for p in first..=last_pos {
+                                let mag = 1 + ((p + n + b) % 3) as i16;
+                                ev.push(Event { run: 0, level: if (p + b) % 2 == 0 { mag } else { -mag }, force_escape: (p + n) % 11 == 0, wide: false });
+                            }
+                            mb.blocks[b].events = ev;
+                        }
+                        mbs.push(mb);
+                    }
+                    let pic = Pic { hdr, mbs, trailing_zero_bits: 0 };
+                    let model = match reconstruct(&pic, Some(&reference)) {
+                        Ok(m) => m,
+                        Err(e) => panic!("HARNESS: invalid full-block picture: {}", e),
+                    };
+                    let res = match decode_bytes(&mut st, &encode_pic(&pic)) {
+                        Outcome::Ok => compare_last(&st, &model.expect).map(|_| ()),
+                        o => Err(format!("valid picture not decoded: {}", o.short())),
+                    };
+                    acc.count_n((mbw * mbh * 6) as u64, (mbw * mbh * 6) as u64);
+                    if let Err(m) = res {
+                        acc.fail(json!({"kind":"params","suite":"full_blocks","mode":mname,"q":q,"intra":intra}), format!("{} q{} {} blocks with every coefficient coded ({} events each): {}", mname, q, if intra { "intra" } else { "inter" }, 64 - first, m));
+                        return;
+                    }
+                }
+            }
+        }
+        acc.sample(|| json!({"blocks": "63 (intra) / 64 (inter) events with run 0, also ending 1 and 2 positions early", "quantizers": [1, 5, 31]}));
+    })
+}
+
 fn block_to_array(b: &hk::DecodedDctBlock) -> [[f32; 8]; 8] {
     let mut a = [[0.0f32; 8]; 8];
     match b {
@@ -481,13 +547,14 @@ pub fn run(ctx: &Ctx) -> i32 {
     reports.push(intradc_suite());
     reports.push(dquant_suite());
     reports.push(escape_pairs_suite());
+    reports.push(full_blocks_suite());
     reports.push(exhaustive_suite(ctx, "hook_inverse_rle", 31, &hook_item));
     let exhaustive = reports.iter().skip(1).all(|r| r.exhaustive);
     finish(
         ctx,
         reports,
         Summary {
-            rule: "Enumerated completely: quantizer 1..31 x every codable level (102 short events x sign; escapes +-1..127 in standard / Sorenson v0, +-1..63 and +-1..1023 in Sorenson v1) x every zig-zag position x {last, not last} x {intra, inter}, each as one block of a real picture decoded through the public API and compared with the ideal transform of the specified coefficient (C02 tie rule); all 256 INTRADC codes (0 and 128 must be rejected, 255 -> 1024) in I and P pictures; PQUANT 1..31 x every chain of three DQUANT values from {-2,-1,1,2} (reaching both clamps and walking back from them); blocks with two escape-coded events in every ordered combination of escape widths and boundary levels; and, through the verif-hooks re-export of the run-length decoder, the coefficient array itself for every quantizer x level -1024..1023 x position, compared for equality with sign(L)(Q(2|L|+1)-[Q even]) saturated to -2048..2047. Non-trivial = |level| >= 2 or escape form; every enumerated case is distinct.",
+            rule: "Enumerated completely: quantizer 1..31 x every codable level (102 short events x sign; escapes +-1..127 in standard / Sorenson v0, +-1..63 and +-1..1023 in Sorenson v1) x every zig-zag position x {last, not last} x {intra, inter}, each as one block of a real picture decoded through the public API and compared with the ideal transform of the specified coefficient (C02 tie rule); all 256 INTRADC codes (0 and 128 must be rejected, 255 -> 1024) in I and P pictures; PQUANT 1..31 x every chain of three DQUANT values from {-2,-1,1,2} (reaching both clamps and walking back from them); blocks with two escape-coded events in every ordered combination of escape widths and boundary levels; blocks with every coefficient coded (63 / 64 events); DQUANT carried by macroblocks without any coded block; and, through the verif-hooks re-export of the run-length decoder, the coefficient array itself for every quantizer x level -1024..1023 x position, compared for equality with sign(L)(Q(2|L|+1)-[Q even]) saturated to -2048..2047. Non-trivial = |level| >= 2 or escape form; every enumerated case is distinct.",
             assumptions: vec!["pixel-level observation blurs a +-1 coefficient error unless it crosses a rounding boundary; the hook-level suite removes that blur".into()],
             exhaustive,
             extra: Map::new(),
@@ -516,6 +583,10 @@ pub fn replay(suite: &str, case: &Value) -> Option<Verdict> {
             None => Verdict::pass(true, 0),
         }),
         "dquant_updates" => Some(match dquant_suite().failure {
+            Some(f) => Verdict::fail(f.msg),
+            None => Verdict::pass(true, 0),
+        }),
+        "every_coefficient_coded" => Some(match full_blocks_suite().failure {
             Some(f) => Verdict::fail(f.msg),
             None => Verdict::pass(true, 0),
         }),
